@@ -190,8 +190,7 @@ func registerRT(e *Engine) {
 	rt("IteU64", func(p *Path, a []Value) Value { return VInt{Ite(tBool(a[0]), tInt(a[1]), tInt(a[2]))} })
 	rt("IteI64", func(p *Path, a []Value) Value { return VInt{Ite(tBool(a[0]), tInt(a[1]), tInt(a[2]))} })
 	rt("IteInt", func(p *Path, a []Value) Value {
-		x, y := a[1].(VBig), a[2].(VBig)
-		return VBig{T: Ite(tBool(a[0]), x.T, y.T)}
+		return VBig{T: Ite(tBool(a[0]), bigT(a[1]), bigT(a[2]))}
 	})
 	rt("Catch", func(p *Path, a []Value) (res Value) {
 		f := a[0]
@@ -251,21 +250,21 @@ func registerRT(e *Engine) {
 	// exact arithmetic helpers for oracles (mathematical integers as math.Int)
 	rt("IntOfU64", func(p *Path, a []Value) Value { return VBig{T: tInt(a[0])} })
 	rt("IntOfI64", func(p *Path, a []Value) Value { return VBig{T: tInt(a[0])} })
-	rt("IntEq", func(p *Path, a []Value) Value { return VBool{Eq(a[0].(VBig).T, a[1].(VBig).T)} })
-	rt("IntLt", func(p *Path, a []Value) Value { return VBool{Lt(a[0].(VBig).T, a[1].(VBig).T)} })
-	rt("IntLe", func(p *Path, a []Value) Value { return VBool{Le(a[0].(VBig).T, a[1].(VBig).T)} })
-	rt("IntAdd", func(p *Path, a []Value) Value { return VBig{T: Add(a[0].(VBig).T, a[1].(VBig).T)} })
-	rt("IntSub", func(p *Path, a []Value) Value { return VBig{T: Sub(a[0].(VBig).T, a[1].(VBig).T)} })
-	rt("IntMul", func(p *Path, a []Value) Value { return VBig{T: Mul(a[0].(VBig).T, a[1].(VBig).T)} })
+	rt("IntEq", func(p *Path, a []Value) Value { return VBool{Eq(bigT(a[0]), bigT(a[1]))} })
+	rt("IntLt", func(p *Path, a []Value) Value { return VBool{Lt(bigT(a[0]), bigT(a[1]))} })
+	rt("IntLe", func(p *Path, a []Value) Value { return VBool{Le(bigT(a[0]), bigT(a[1]))} })
+	rt("IntAdd", func(p *Path, a []Value) Value { return VBig{T: Add(bigT(a[0]), bigT(a[1]))} })
+	rt("IntSub", func(p *Path, a []Value) Value { return VBig{T: Sub(bigT(a[0]), bigT(a[1]))} })
+	rt("IntMul", func(p *Path, a []Value) Value { return VBig{T: Mul(bigT(a[0]), bigT(a[1]))} })
 	rt("IntDivFloor", func(p *Path, a []Value) Value { // floor division, divisor > 0 assumed
-		return VBig{T: Div(a[0].(VBig).T, a[1].(VBig).T)}
+		return VBig{T: Div(bigT(a[0]), bigT(a[1]))}
 	})
 	rt("IntMin", func(p *Path, a []Value) Value {
-		x, y := a[0].(VBig).T, a[1].(VBig).T
+		x, y := bigT(a[0]), bigT(a[1])
 		return VBig{T: Ite(Le(x, y), x, y)}
 	})
 	rt("IntMax", func(p *Path, a []Value) Value {
-		x, y := a[0].(VBig).T, a[1].(VBig).T
+		x, y := bigT(a[0]), bigT(a[1])
 		return VBig{T: Ite(Ge(x, y), x, y)}
 	})
 	rt("DecRawOf", func(p *Path, a []Value) Value { return VBig{T: a[0].(VDec).T} })
@@ -299,9 +298,9 @@ func registerRT(e *Engine) {
 		}
 		return VBool{eq}
 	})
-	rt("IntStr", func(p *Path, a []Value) Value { return VStr{p.intToStrDecided(a[0].(VBig).T)} })
-	rt("Pad9", func(p *Path, a []Value) Value { return VStr{padLeftZeros(a[0].(VBig).T, 9)} })
-	rt("IntMod", func(p *Path, a []Value) Value { return VBig{T: Mod(a[0].(VBig).T, a[1].(VBig).T)} })
+	rt("IntStr", func(p *Path, a []Value) Value { return VStr{p.intToStrDecided(bigT(a[0]))} })
+	rt("Pad9", func(p *Path, a []Value) Value { return VStr{padLeftZeros(bigT(a[0]), 9)} })
+	rt("IntMod", func(p *Path, a []Value) Value { return VBig{T: Mod(bigT(a[0]), bigT(a[1]))} })
 }
 
 func registerCore(e *Engine) {
